@@ -96,7 +96,7 @@ def run(chk):
     bad, fails = [], []
     bad_cert = []
     ncert = {'loose': 0, 'pp': 0}
-    n = chk.n(800, 4000)
+    n = chk.n(800, 16000)
     for it in range(n):
         d = gen_partial_wordlist(rng)
         link = rng.choice(['upgma', 'single', 'complete'])
